@@ -231,7 +231,7 @@ def _check_rows(model, table, ph, rows, ta, tol, enabled, out, stats):
                     out.append(("C01", "parent-cell", "phase %r %s: cell %r want %r" % (ph, n, cell, want)))
                     return
         ei = expected_iout(model, rows, n)
-        if ei is not None and ("C01" in E or "C05" in E or "C03" in E):
+        if ei is not None and ("C01" in E or "C05" in E or "C03" in E or "C04" in E):
             ok = abs(iout - ei) <= (tol.i(max(abs(ei), abs(iout))) if k == "Source" else 1e-12 + 1e-9 * abs(ei))
             if not ok:
                 hasmux = any(len(model.parents[c]) > 1 for c in model.children(n))
@@ -239,6 +239,12 @@ def _check_rows(model, table, ph, rows, ta, tol, enabled, out, stats):
                 if pid not in E and "C03" in E:
                     out.append(("C03", "steady-state-iout-is-sum-of-children", "phase %r %s: Iout=%r children sum=%r" % (ph, n, iout, ei)))
                     return
+                if pid not in E and "C04" in E:
+                    if hasmux:
+                        # a (sleeping) mux draws from its selected input only
+                        out.append(("C04", "mux-draws-from-one-supply", "phase %r %s: Iout=%r but its children draw %r (a mux below it draws from its selected input only)" % (ph, n, iout, ei)))
+                        return
+                    continue_ = True
                 if pid in E:
                     out.append((pid, "iout-equals-sum-of-children-iin", "phase %r %s: Iout=%r children sum=%r" % (ph, n, iout, ei)))
                     return
